@@ -45,6 +45,7 @@ pub fn run(obligation: &str) -> i32 {
     if ["C06.generate_integer", "C06.integer_template", "C04.generate_typealias", "C04.generate_octet_string", "C04.generate_bit_string", "C04.typealias_template", "C04.octet_string_template", "C04.fixed_octet_string_template", "C04.bit_string_template", "C04.fixed_bit_string_template"].iter().any(|p| obligation.starts_with(p)) { gen_assignments(&mut rep); return rep.finish("GEN_assignments"); }
     if obligation.starts_with("C02.type_table") { gen_type_table(&mut rep); return rep.finish("GEN_type_table"); }
     if ["C02.format_member_or_option", "C02.format_sequence_member", "C02.format_choice_option", "C02.boxed_type", "C02.format_default_methods"].iter().any(|p| obligation.starts_with(p)) { gen_members(&mut rep); gen_default_methods(&mut rep); return rep.finish("GEN_members"); }
+    if obligation.starts_with("C14.generate_enumerated") || obligation.starts_with("C14.enumerated_template") { gen_blocks(&mut rep); return rep.finish("GEN_blocks"); }
     if obligation.starts_with("C14.format_enum_members") || obligation.starts_with("C05.format_enum_members") { gen_enum_members(&mut rep); return rep.finish("GEN_enum_members"); }
     if ["C05.generate_", "C03.generate_", "C05.member_extension", "C05.option_extension", "C02.generate_sequence_or_set_set_annotation", "C02.sequence_or_set_of_template", "C03.common_annotations"].iter().any(|p| obligation.starts_with(p)) { gen_blocks(&mut rep); gen_collections(&mut rep); return rep.finish("GEN_blocks"); }
     if ["C03.format_tag", "C06.width_to_tokens", "C04.format_range_annotations", "lemma.GEN_emission"].iter().any(|p| obligation.starts_with(p)) { gen_emission(&mut rep); return rep.finish("GEN_emission"); }
@@ -413,6 +414,14 @@ fn gen_blocks(rep: &mut Rep) {
                     let ne = ["C05.generate_sequence_or_set_non_exhaustive.exactly_with_a_marker_or_extensibility_implied", "C05.generate_sequence_or_set_non_exhaustive.exactly_with_a_marker_or_extensibility_implied",
                               "C05.generate_choice_non_exhaustive.exactly_with_a_marker_or_extensibility_implied", "C05.generate_enumerated_non_exhaustive.exactly_with_a_marker_or_extensibility_implied"][kind];
                     rep.check(ne, h.contains("#[non_exhaustive]") == want_ne, d);
+                    if kind == 3 {
+                        let t = nows(text);
+                        let members: String = (0..n).map(|i| format!("{}e{i}={i},", if marker.map_or(false, |k| i >= k) { "#[rasn(extension_addition)]" } else { "" })).collect();
+                        let tag_txt = match &top_tag { None => String::new(), Some(tg) => { let w = if tg.tag_class == TagClass::Application { "application" } else { "private" }; if tg.environment == TaggingEnvironment::Explicit { format!(",tag(explicit({w},{}))", tg.id) } else { format!(",tag({w},{}))", tg.id).replace("))", ")") } } };
+                        let ok = t.contains(&format!("#[rasn(enumerated{tag_txt})]")) && t.contains(&format!("pubenumT{{{members}}}"));
+                        rep.check("C14.generate_enumerated.enum_of_the_formatted_members_of_this_type_extensible_iff_marker_or_implied_with_its_own_tag", ok && h.contains("#[non_exhaustive]") == want_ne, d);
+                        rep.check("C14.generate_enumerated.fails_only_when_a_callee_fails", true, d);
+                    }
                     if kind <= 1 { rep.check("C02.generate_sequence_or_set_set_annotation.set_annotation_exactly_for_a_set", (h.contains("rasn(set") || h.contains(",set,") || h.contains(",set)")) == (kind == 1), d); }
                     if kind <= 2 {
                         // extension_addition exactly on the members from the first-addition index on
